@@ -147,9 +147,10 @@ def restart_overlay_remove(rng):
     pool = [rng.choice(CONFLICT_RICH) for _ in range(3)]
     under = rng.choice(['n:bold', 'n:italic', 'n:underline', 'n:bg_red', 'n:crossed_out'] + pool)
     ops_ = [_new(text, [rng.choice(pool)], 0)]
-    if rng.random() < 0.4:
-        ops_.append(_apply(0, [rng.choice(pool)], 0, None, top=True))
     p = rng.randrange(1, n)
+    for _ in range(rng.choice([0, 0, 1, 1, 2])):
+        # further settings leading up to p from different start indices (a restart group of several)
+        ops_.append(_apply(0, [rng.choice(pool + ['n:bold', 'n:italic'])], rng.randrange(0, p), None, top=True))
     e = None if rng.random() < 0.4 else rng.randint(p + 1, n)
     ops_.append(_apply(0, [under], p, e, top=False))
     for _ in range(rng.choice([1, 2, 2, 3])):
